@@ -55,7 +55,7 @@ Clauses == <<
   <<"C11d", "C11", "end">>, <<"C11e", "C11", "end">>,
   <<"C12a", "C12", "end">>, <<"C12b", "C12", "end">>, <<"C12c", "C12", "end">>, <<"C12d", "C12", "end">>,
   <<"C13a", "C13", "st">>, <<"C13b", "C13", "st">>, <<"C13c", "C13", "tr">>,
-  <<"C13d", "C13", "tr">>, <<"C13e", "C13", "end">>,
+  <<"C13d", "C13", "tr">>, <<"C13e", "C13", "end">>, <<"C13f", "C13", "tr">>,
   <<"C14a", "C14", "end">>, <<"C14b", "C14", "end">>,
   <<"C15a", "C15", "end">>, <<"C15b", "C15", "end">>,
   <<"C16a", "C16", "tr">>, <<"C16b", "C16", "tr">>, <<"C16c", "C16", "end">>,
@@ -144,6 +144,7 @@ EvalTr(n, r, pre, post, isStart) ==
     [] n = "C10b" -> C10b(call, res, post)
     [] n = "C13c" -> IF isStart \/ r.mis THEN "na" ELSE C13c(pre, post, call, res)
     [] n = "C13d" -> IF isStart \/ r.mis THEN "na" ELSE C13d(pre, post)
+    [] n = "C13f" -> IF r.mis THEN "na" ELSE C13f(cx, pre, post)
     [] n = "C16a" -> IF isStart \/ r.mis THEN "na" ELSE C16a(cx, pre, post, call, res)
     [] n = "C16b" -> IF isStart \/ r.mis THEN "na" ELSE C16b(cx, pre, post, call, res)
     [] n = "C17i" -> IF isStart \/ r.mis THEN "na" ELSE C17i(pre, post, call, res)
